@@ -6,8 +6,6 @@ Open Scope Z_scope.
 (* What an envelope declares about its blob, written without looking at the code's
    case analysis (props/C30.v repeats these definitions verbatim; the theorems
    there are stated with its own copies and closed by conversion). *)
-Inductive decl := DInvalid | DNothing | DDigest (a : alg) (hex : bytes).
-
 Definition declared (e : envelope) : decl :=
   match normalize_alg (e_alg e) with
   | None => DInvalid
